@@ -11,6 +11,14 @@ TRUST = ("trusted base: rustc's MIR dump of the current tree, the mirsym interpr
 
 # id -> (level text, note, design ref)
 CLAIMED = {
+    "C22": ("All single blocks of <= N instructions (quick 2, thorough 3) plus an optional terminator over 16 classical / RF templates with solver-chosen operands, "
+            "scheduled by the real ScheduledProgram::from_program: every edge points forward in block order; with all RF instructions matched every node is reachable "
+            "from the start and reaches the end.", TRUST, "5/C22"),
+    "C23": ("(a) one step of DependencyQueue::<MemoryAccessType>::record_access_and_get_dependencies from an arbitrary queue state (any pending write/capture, <= 2 pending "
+            "reads, all node indices symbolic) against the sequential-consistency specification: unbounded in block length; (b) whole blocks as in C22 over 8 memory-touching "
+            "templates: conflicting pairs are ordered, every memory edge joins a conflicting pair.", TRUST, "5/C23"),
+    "C24": ("Whole blocks as in C22 over 12 RF templates and three frames: conflicting uses/blocks are ordered through StableOrdering edges, through Scheduled edges when both "
+            "are timed; every frame edge joins a conflicting pair or a block boundary.", TRUST, "5/C24"),
     "C26": ("All frame sets of <= K frames (quick 2, thorough 3) on one or two qubits with solver-chosen qubits and names, and one instruction from 22 templates "
             "(pulses, captures, frame updates, SWAP-PHASES, FENCE, DELAY, RESET q) with solver-chosen operands: the real DefaultHandler::matching_frames against "
             "reference used/blocked sets written from the Quil-T rules in the statement; defined-ness and disjointness.",
